@@ -161,20 +161,44 @@ v4_grid(void) {
 	}
 }
 
-/* thorough: every one of the 2^32 addresses x every length; one case = one /24 block */
+/* thorough: every one of the 2^32 addresses x every length; one case = one /24 block
+ * (net_addr_truncate_preflen, is_addr_in_net for the address and its two neighbours across the prefix edge) */
 static uint32_t cur_blk;
 static void desc_blk(char *b, size_t n) { snprintf(b, n, "block %u.%u.%u.0/24 x len 0..32", cur_blk >> 16, (cur_blk >> 8) & 255, cur_blk & 255); }
 static void
 v4_sweep(void) {
-	uint32_t blk, lo; unsigned len; char why[200]; int w;
+	uint32_t blk, lo, a, be, m, net; unsigned len; char why[200]; int w, bad;
 	vh_set_describer(desc_blk);
 	for (blk = 0; blk < (1u << 24); blk ++) {
 		if (!vh_begin("ipv4_prefix_arith_all_addresses")) continue;
-		cur_blk = blk; w = 0;
-		for (lo = 0; lo < 256 && !w; lo ++)
+		cur_blk = blk; bad = 0;
+		memset(h_sin, 0, sizeof(*h_sin)); h_sin->sin_family = AF_INET; h_sin->sin_port = htons(0x1234);
+		for (lo = 0; lo < 256; lo ++) {
+			a = (blk << 8) | lo; be = htonl(a);
+			for (len = 0; len <= 32; len ++) {
+				m = ref_mask4(len); net = a & m;
+				h_sin->sin_addr.s_addr = be;
+				net_addr_truncate_preflen((struct sockaddr_storage *)h_sin, (uint16_t)len);
+				bad |= (h_sin->sin_addr.s_addr != htonl(net));
+				h_n4->s_addr = htonl(net); h_m4->s_addr = htonl(m); h_a4->s_addr = be;
+				bad |= (1 != is_addr_in_net(AF_INET, (const uint32_t *)h_n4, (const uint32_t *)h_m4, (const uint32_t *)h_a4));
+				if (len > 0) {	/* neighbour across the prefix edge is outside */
+					h_a4->s_addr = htonl(a ^ (0x80000000u >> (len - 1)));
+					bad |= (0 != is_addr_in_net(AF_INET, (const uint32_t *)h_n4, (const uint32_t *)h_m4, (const uint32_t *)h_a4));
+				}
+				if (len < 32) {	/* neighbour in the first host bit is inside */
+					h_a4->s_addr = htonl(a ^ (0x80000000u >> len));
+					bad |= (1 != is_addr_in_net(AF_INET, (const uint32_t *)h_n4, (const uint32_t *)h_m4, (const uint32_t *)h_a4));
+				}
+			}
+		}
+		bad |= (h_sin->sin_family != AF_INET || h_sin->sin_port != htons(0x1234));
+		if (!bad) { vh_nontrivial(); continue; }
+		/* something differed: redo the block with the explaining checker */
+		for (w = 0, lo = 0; lo < 256 && !w; lo ++)
 			for (len = 0; len <= 32 && !w; len ++)
 				w = v4_one((blk << 8) | lo, len, 0, why, sizeof(why));
-		if (w) report4(w, why); else vh_nontrivial();
+		if (w) report4(w, why); else vh_fail("sockaddr-fields", "family/port of the sockaddr changed");
 	}
 	vh_set_describer(NULL);
 }
@@ -254,9 +278,12 @@ main(int argc, char **argv) {
 	h_m4 = malloc(4); h_n4 = malloc(4); h_a4 = malloc(4);
 	h_m6 = malloc(16); h_n6 = malloc(16); h_a6 = malloc(16);
 	h_sin = malloc(sizeof(*h_sin)); h_sin6 = malloc(sizeof(*h_sin6));
+#ifdef C18_SWEEP	/* second build of this file: no sanitizer, -O2 -flto, only the 2^32 sweep */
+	if (vh_thorough) v4_sweep();
+#else
 	lenmask_all();
 	v4_grid();
 	v6_all();
-	if (vh_thorough) v4_sweep();
+#endif
 	return (vh_finish());
 }
